@@ -25,7 +25,7 @@ ASSUMPTIONS = [
     "an existing tree is 'up to date' for spec s iff a forced generation of s on a copy of the project leaves the package and core directories byte-identical",
     "hash seed, process history, clock and output root are the nondeterminism sources varied; the clock is shifted by patching time.time/datetime.now in the child",
 ]
-BOUND = {"quick": "19 documents x 3 seeds x 2 x 2 x 2 processes; histories to depth 3 over 8 events x 3 layouts; 64 environment pairs; 38 per-document no-op re-runs; 42 drifts", "thorough": "4 seeds; histories to depth 4"}
+BOUND = {"quick": "20 documents x 3 seeds x 2 x 2 x 2 processes; histories to depth 3 over 8 events x 3 layouts; 64 environment pairs; 40 per-document no-op re-runs; 42 drifts", "thorough": "4 seeds; histories to depth 4"}
 CHUNK = 1
 CASE_TIMEOUT_S = 900
 
